@@ -527,6 +527,11 @@ func bundleKeys(ctx context.Context, b *Bundle, size uint32, db kvStore, logger 
 	); err != nil {
 		logger.Warn("the metadata for this bundle cannot be read", zap.String("bundle_id", b.BundleID), zap.Error(err))
 
+		if errors.Is(err, status.ErrStorageAPI) {
+			// the store keeps failing: the bundle may be perfectly valid, and its blobs must not be left out of the index
+			return nil, err
+		}
+
 		// some metadata is incomplete and/or invalid: ignore errors
 		return nil, nil
 	}
@@ -573,6 +578,10 @@ func bundleKeys(ctx context.Context, b *Bundle, size uint32, db kvStore, logger 
 		},
 			backoff.WithContext(defaultBackoff(), ctx),
 		)
+		if err != nil && errors.Is(err, status.ErrStorageAPI) {
+			// the store keeps failing: the root key may be perfectly valid, and its leaves must not be left out of the index
+			return nil, err
+		}
 		if err != nil {
 			// The root key is somehow corrupted. This might happen with objects created with previous versions of datamon:
 			// ignore the leaves and just return the root key.
